@@ -50,6 +50,8 @@ type Scenario struct {
 	StartReg   bool     `json:"startreg,omitempty"`
 	OpenStart  bool     `json:"openstart,omitempty"`
 	LateFirst  bool     `json:"latefirst,omitempty"`
+	Overlap    bool     `json:"overlap,omitempty"`
+	ReInit     bool     `json:"reinit,omitempty"`
 }
 
 type Outcome struct {
@@ -196,6 +198,11 @@ func scenarios(c *lib.Ctx, rng *rand.Rand) []Scenario {
 	// shifted channel: uploads of the other tracks are open (no body byte sent yet) while the master starts the channel
 	for _, n := range []int{2, 3} {
 		scs = append(scs, Scenario{Channels: []string{"os"}, Tracks: oneVideoTracks(n), OpenStart: true, Rounds: rounds / 2})
+	}
+	// overlapping uploads of the same track (a segment still arriving while the next one, or a re-sent init, completes)
+	for _, n := range []int{2, 4} {
+		scs = append(scs, Scenario{Channels: []string{"ov"}, Tracks: oneVideoTracks(n), Overlap: true, Rounds: rounds / 2})
+		scs = append(scs, Scenario{Channels: []string{"ovi"}, Tracks: oneVideoTracks(n), Overlap: true, ReInit: true, Rounds: rounds / 2})
 	}
 	// more messages outstanding than the channel's queue holds while the channel goroutine waits for the MPD mutex
 	for _, n := range []int{6, 8} {
@@ -536,6 +543,12 @@ func run(c *lib.Ctx) error {
 		}
 		if sc.OpenStart {
 			nUp = 5 * len(sc.Tracks)
+		}
+		if sc.Overlap {
+			nUp = 4 * len(sc.Tracks)
+			if sc.ReInit {
+				nUp = 5 * len(sc.Tracks)
+			}
 		}
 		if sc.Restart {
 			half := (len(sc.Tracks) + 1) / 2
